@@ -22,8 +22,12 @@ func init() {
 	engines["timeout"] = runTimeout
 }
 
+const idPrefix = "lean-helix-validator-"
+
 func idBytes(n uint64) primitives.MemberId {
-	return primitives.MemberId(fmt.Sprintf("m%05d", n))
+	// longer than a 20-byte address and identical in the first 21 bytes for all members: whatever is keyed by a prefix
+	// or a fixed-size copy of a member id collides on these
+	return primitives.MemberId(fmt.Sprintf("%s%05d", idPrefix, n))
 }
 
 type qCase struct {
